@@ -25,6 +25,7 @@ structure St where
   log : List (List String) := []   -- schedule log, tokenised
   events : List String := []
   hasAdv : Bool := false
+  retryMs : Nat := 0               -- retry timeout of the breaker rule loaded in the setup (C16)
   deriving Inhabited
 
 def isThreadOp (name : String) : Option Nat :=
@@ -131,6 +132,10 @@ structure ProbeSt where
   closedRead : List Nat := []                -- threads that, in their running operation, entered the state mutex while it said Closed
   probeBy : List Nat := []                   -- threads that, in their running operation, performed Open→Half-Open
   leftHalfOpenBy : List Nat := []            -- threads that, in their running operation, moved the breaker out of Half-Open
+  opIdx : List (Nat × Nat) := []             -- thread → number of its operations that have finished
+  clockLo : Nat := 0                         -- virtual time (ms since the start of the schedule) certainly reached: the finished `adv` steps
+  gotLo : List (Nat × Nat) := []             -- thread → `clockLo` when it last entered the state mutex
+  deadlineLo : Option Nat := none            -- earliest possible retry deadline of the current Open phase (opened during the schedule)
   bad : Option String := none
 
 /-- C16: every admitted request must be justified: inside the request its thread either entered the breaker's state mutex
@@ -146,7 +151,8 @@ def specProbes (st : St) (v : Verdict) (i : Nat) : Verdict :=
     | none => p
     | some t =>
       if kind == "got" && isState then
-        { p with holder := some t, closedRead := if p.state == .closed && !p.closedRead.contains t then t :: p.closedRead else p.closedRead }
+        { p with holder := some t, closedRead := if p.state == .closed && !p.closedRead.contains t then t :: p.closedRead else p.closedRead,
+                 gotLo := (t, p.clockLo) :: p.gotLo.filter (fun x => x.1 != t) }
       else if kind == "rel" && isState then { p with holder := none }
       else if kind == "note" && body.startsWith "ev=" then
         match parseEvent (body.drop 3).toString with
@@ -158,7 +164,27 @@ def specProbes (st : St) (v : Verdict) (i : Nat) : Verdict :=
             | .halfOpen, .halfOpen, _ => p.leftHalfOpenBy
             | .halfOpen, _, some h => h :: p.leftHalfOpenBy
             | _, _, _ => p.leftHalfOpenBy
-          { p with state := to, probeBy := probeBy, leftHalfOpenBy := left }
+          -- the retry deadline is set inside the critical section that opens the breaker: not before the opener entered it
+          -- (a completion renews the deadline; the roll-back of a rejected probe - performed inside its own `build` - does not)
+          let holderOp := fun (h : Nat) => ((progOf st h)[((p.opIdx.find? (fun x => x.1 == h)).map (·.2)).getD 0]?).map (·.name)
+          let deadlineLo := match to, p.holder with
+            | .opn, some h =>
+              if holderOp h == some "exit" then some (((p.gotLo.find? (fun x => x.1 == h)).map (·.2)).getD p.clockLo + st.retryMs) else none
+            | .opn, none => none
+            | _, _ => p.deadlineLo
+          -- latest possible clock now: the finished `adv` steps plus every `adv` step some thread may be in the middle of
+          let pending := (threads st).foldl (fun acc u =>
+            let k := ((p.opIdx.find? (fun x => x.1 == u)).map (·.2)).getD 0
+            match (progOf st u)[k]? with
+            | some o => if o.name == "adv" then acc + (((o.get? "ms").bind String.toNat?).getD 0) else acc
+            | none => acc) 0
+          let bad := match p.state, to, p.deadlineLo with
+            | .opn, .halfOpen, some d =>
+              if p.clockLo + pending < d && p.bad.isNone then
+                some s!"a request became the probe {d - (p.clockLo + pending)} ms or more before the retry deadline of the Open phase (no pass while Open before the retry timeout)"
+              else p.bad
+            | _, _, _ => p.bad
+          { p with state := to, probeBy := probeBy, leftHalfOpenBy := left, deadlineLo := deadlineLo, bad := bad }
         | _ => p
       else if kind == "note" then
         let justified := p.closedRead.contains t || p.probeBy.contains t
@@ -170,8 +196,14 @@ def specProbes (st : St) (v : Verdict) (i : Nat) : Verdict :=
         let bad := if body.startsWith "build=" && p.leftHalfOpenBy.contains t && !p.probeBy.contains t && bad.isNone then
             some s!"thread t{t} moved the breaker out of Half-Open during a request that was not the probe (one probe per Half-Open phase: the phase was ended by a bystander)"
           else bad
+        -- the operation of thread t that just finished; a finished `adv` step has certainly moved the clock
+        let k := ((p.opIdx.find? (fun x => x.1 == t)).map (·.2)).getD 0
+        let adv := match (progOf st t)[k]? with
+          | some o => if o.name == "adv" then ((o.get? "ms").bind String.toNat?).getD 0 else 0
+          | none => 0
         { p with bad := bad, closedRead := p.closedRead.filter (· != t), probeBy := p.probeBy.filter (· != t),
-                 leftHalfOpenBy := p.leftHalfOpenBy.filter (· != t) }
+                 leftHalfOpenBy := p.leftHalfOpenBy.filter (· != t),
+                 opIdx := (t, k + 1) :: p.opIdx.filter (fun x => x.1 != t), clockLo := p.clockLo + adv }
       else p
   -- notifications from the setup (before the schedule started) are in the listener log only: they fix the initial state
   let inRun := (st.log.filter (fun e => e.getD 1 "" == "note" && (e.getD 2 "").startsWith "ev=")).length
@@ -193,6 +225,7 @@ def stepCase (prop : String) (st : St) (v : Verdict) (i : Nat) (opText obs : Str
     | [] => (st, v.setDiff s!"step={i} empty thread op")
   | none =>
   match op.name with
+  | "br.load" => ({ st with retryMs := ((op.get? "retry").bind String.toNat?).getD 0 }, v)
   | "run" =>
     let (st, v) := checkRun prop st v i opText obs
     let v := if prop == "C14" then specOneNode st v i else v
